@@ -24,7 +24,7 @@ THEOREMS = [
     'Pfst.C08.reindent_roundtrip', 'Pfst.C08.indentBlock_fixed', 'Pfst.C08.bytes_never_indentable',
     'Pfst.C08.strict_only_first',
     'Pfst.C08.header_untouched', 'Pfst.C08.toElif_sound', 'Pfst.C08.toElif_complete',
-    'Pfst.C08.twins_same_fixup', 'Pfst.C08.with_family_fixed',
+    'Pfst.C08.annSimple_correct', 'Pfst.C08.twins_same_fixup', 'Pfst.C08.with_family_fixed',
     'Pfst.C08.put_back', 'Pfst.C08.put_copy', 'Pfst.C08.replace_self',
 ]
 RULE = ('(a) repr_str_multiline on ALL strings over the 12-character alphabet {\' " \\ LF TAB CR NUL a SPACE e-acute NBSP '
@@ -48,7 +48,9 @@ RULE = ('(a) repr_str_multiline on ALL strings over the 12-character alphabet {\
         'reparse; 183 statements whose expression slots share delimiters with the statement, sync and async (sole with-item '
         'tuples, for / async for iterables, return / yield / await, sole call arguments, subscripts, del, assert, decorators, '
         'class bases, match subjects and patterns, raise / from, if / while tests, assignments): every expression and pattern '
-        'replaced by its own copy / pure AST / own_src / copy().src, twice, judged by ast.parse + dump + full reparse; '
+        'replaced by its own copy / pure AST / own_src / copy().src, twice, judged by ast.parse + dump + full reparse; the '
+        'same with one more pair of parentheses around every expression (892 variants, incl. parenthesised AnnAssign targets, '
+        'import levels, u-strings, async comprehensions: scalar fields derived from the spelling); '
         'read accessors (own_src / own_lines with docstr None / True / False / strict, whole=False, get_docstr, '
         'get_line_comment, copy().src) called in all 24 orders and rotations on ONE unmodified node under rotating '
         'FST.options(docstr=...) defaults, each answer = the answer of a fresh tree under the same effective options; '
@@ -534,13 +536,18 @@ def _precond(s):
     return not s.split('\n')[0][:1].isspace()
 
 
+def hash_small(s):
+    return sum((i + 1) * ord(c) for i, c in enumerate(s)) % 1009
+
+
 def _doc_one(host, s):
     """returns (failure-class, detail) or None"""
     src, pick, _ = DOC_HOSTS[host]
     root = _mk(src)
     node = pick(root)
     npath = _ser_path(root.child_path(node)) if node is not root else []
-    _read_set(root, npath)
+    if len(s) <= 2 or hash_small(s) % 8 == 0:
+        _read_set(root, npath)
     try:
         node.put_docstr(s)
     except Exception as e:
@@ -565,9 +572,10 @@ def _doc_one(host, s):
         return 'value!=literal', f'Constant.value = {live!r}, source literal denotes {den!r}'
     if host == 'module' and live != s:
         return 'value!=text', f'Constant.value = {live!r}'
-    st = _stale_after_write(root, npath)
-    if st:
-        return 'stale-after-write', st
+    if len(s) <= 2 or hash_small(s) % 8 == 0:       # the read-back of all ancestors is the expensive part: a fixed eighth
+        st = _stale_after_write(root, npath)
+        if st:
+            return 'stale-after-write', st
     # independent reading of the value: what inspect-free dedent by the known indentation gives
     return None
 
@@ -1200,7 +1208,10 @@ def _blk_case(arg):
         elifs = (None, True, False) if (field == 'orelse' or is_if) else (None,)
         parent = _de_path(root, path)
         old_elif = bool(field == 'orelse' and pkind == 'If' and n == 1 and is_if and getattr(parent.a, field)[0].f.is_elif())
-        combos = [(form, via) for form in blks.FORMS for via in blks.VIAS] + [('copy', 'cut')]
+        if field == 'orelse' or is_if:
+            combos = [(form, via) for form in blks.FORMS for via in blks.VIAS] + [('copy', 'cut')]
+        else:
+            combos = [('copy', 'replace'), ('ast', 'put_slice'), ('own_src', 'put'), ('src', 'view'), ('copy', 'cut')]
         for elif_ in elifs:
             for form, via in combos:
                 w = {'op': 'blk', 'src': src, 'path': path, 'field': field, 'idx': idx, 'form': form, 'via': via, 'elif_': elif_}
@@ -1398,6 +1409,73 @@ def _hdr_case(arg):
     return out
 
 
+def _hdrv_case(arg):
+    src, (lineno, col), kind = arg
+    out = []
+    d0 = ast.dump(ast.parse(src))
+    root = _mk(src)
+    for f in root.walk(True):
+        a = f.a
+        if a.__class__.__name__ == kind and getattr(a, 'lineno', None) == lineno and getattr(a, 'col_offset', None) == col:
+            path = _ser_path(root.child_path(f))
+            slot = f.parent.a.__class__.__name__ + '.' + f.pfield.name
+            for form in ('copy', 'ast', 'own_src', 'copy_src'):
+                r, new = _hdr_one(src, path, form, d0)
+                out.append((form, kind, slot, r[0] if r else None, r[1] if r else '',
+                            {'op': 'hdr', 'src': src, 'path': path, 'form': form}, new))
+            break
+    return out
+
+
+def _corr_annsimple(ctx):
+    """AnnAssign.simple after a put into the target: implementation vs Lean rule vs CPython on the new source"""
+    name = 'AnnAssign.simple after a put into target vs Pfst.SharedDelims.annSimple'
+    items, impls, metas = [], [], []
+    for tgt, is_name in (('x', 1), ('a.b', 0), ('a[0]', 0), ('a[b:c]', 0)):
+        for npars in (0, 1, 2):
+            for tail in (': int = 1', ': int', ': "t" = (1)'):
+                for new_tgt in (None, 'y', 'c.d', '(z)'):
+                    src = '(' * npars + tgt + ')' * npars + tail + '\n'
+                    root = _mk(src)
+                    st = root.body[0]
+                    try:
+                        st.target.replace(st.target.copy() if new_tgt is None else new_tgt)
+                    except Exception as e:
+                        continue
+                    new = root.src
+                    try:
+                        ref = ast.parse(new).body[0]
+                    except SyntaxError:
+                        ref = None
+                    # parentheses around the new target, counted on the new source with the tokenizer
+                    toks = [t for t in util.tokens(new) if t.string not in ('', '\n')]
+                    k = 0
+                    while toks[k].string == '(':
+                        k += 1
+                    items.append([int(isinstance(ref.target, ast.Name)) if ref else 0, k])
+                    impls.append((st.a.simple, ref.simple if ref else None))
+                    metas.append({'src': src, 'put': new_tgt, 'new': new})
+    outs = _batched(ctx, name, 'C08.annsimple', 'items', items)
+    if outs is None:
+        return
+    bad = 0
+    for it, (live, ref), m, mo in zip(items, impls, metas, outs):
+        ctx.corr_cases += 1
+        ctx.count('annsimple:' + repr(m), True)
+        if not (mo == live == ref):
+            bad += 1
+            _disagree(ctx, name, m, {'tree.simple': live, 'ast.parse(new source).simple': ref}, {'annSimple': mo, 'features': it})
+            if live != ref:
+                ctx.fail('C08|replace|AnnAssign.target|simple!=parse',
+                         f'after target.replace({m["put"] or "own copy"!r}) on {m["src"]!r} the tree has simple={live}, '
+                         f'CPython reads simple={ref} from {m["new"]!r}',
+                         {'op': 'annsimple', 'src': m['src'], 'put': m['put']})
+    ctx.tally('correspondence_cases', name)
+    ctx.dist['correspondence_cases'][name] = len(items)
+    if bad:
+        ctx.brk('correspondence', name, f'{bad}/{len(items)} differ; first: ' + repr(_FIRST.get(name))[:800])
+
+
 def _sweep_headers(ctx):
     name = 'fix-up after a put into withitem.context_expr vs Pfst.SharedDelims.fixWithItems'
     n = ref = 0
@@ -1414,6 +1492,20 @@ def _sweep_headers(ctx):
                          f'{kind} in slot {slot} replaced by itself ({form}): {r}: {detail}', w)
     ctx.notes['header_expr_roundtrips'] = n
     ctx.notes['header_expr_refused'] = ref
+    # one more pair of parentheses around every expression of every program: the wrapped node replaced by itself
+    variants = [(v, pos, kind) for _, s in progs for v, pos, kind in hdrs.parenthesised_variants(s)]
+    nv = 0
+    for lst in pmap(_hdrv_case, variants):
+        for form, kind, slot, r, detail, w, new in lst:
+            nv += 1
+            ctx.count('hdrv:' + repr(w), True)
+            if r == 'refused':
+                ref += 1
+            elif r:
+                ctx.fail(f'C08|hdr-replace-{form}|{slot}:({kind})|{r}',
+                         f'parenthesised {kind} in slot {slot} replaced by itself ({form}): {r}: {detail}', w)
+    ctx.notes['header_parenthesised_roundtrips'] = nv
+    _corr_annsimple(ctx)
     # the decision: after the sole parenthesised item of a with statement is replaced by its copy, are the statement's
     # own parentheses still there (the fix-up ran)?  Same question for the sync and the async twin.
     cases, obs, wit = [], [], []
@@ -1455,6 +1547,14 @@ def _programs(ctx, n, stdlib):
     return corpus.programs(rng, n, stdlib=stdlib)
 
 
+def _timed(ctx, label, fn, *a):
+    import time
+    t0 = time.time()
+    r = fn(*a)
+    ctx.notes.setdefault('phase_seconds', {})[label] = round(time.time() - t0, 1)
+    return r
+
+
 def sweep(ctx):
     q = ctx.quick
     rng = random.Random(ctx.rng.random())
@@ -1462,18 +1562,18 @@ def sweep(ctx):
     surr = ['\ud800', 'a\udfffb', '"""\ud83d\'\'\'']
     extra = _random_strings(rng, 400 if q else 4000, lo=1, hi=60) + surr + rng.sample(_fragment_strings(4), 600 if q else 4000) + \
         ['line one\n  indented\n\n\tTabbed\nlast\n', 'a\n' * 5, 'x' * 300, ' lead', '\tlead', '\n\nx', 'a\\\nb', 'a\\']
-    _sweep_doc(ctx, strs, extra)
+    _timed(ctx, 'doc', _sweep_doc, ctx, strs, extra)
     lp = lits.programs()
-    _sweep_literals(ctx, rng.sample(lp, 700) if q else lp)
-    _sweep_blocks(ctx, blks.programs())
-    _sweep_headers(ctx)
+    _timed(ctx, 'literals', _sweep_literals, ctx, rng.sample(lp, 700) if q else lp)
+    _timed(ctx, 'blocks', _sweep_blocks, ctx, blks.programs())
+    _timed(ctx, 'headers', _sweep_headers, ctx)
     docp = [(m, s) for m, s in lp if not m['bytes'] and m['form'].startswith('triple')]
     accp = [(s, lits.target_paths(m)) for m, s in docp] + \
         [(s, [p + [[f_, i]] for p, f_, i, _, _, _ in blks.positions(s)][:4]) for _, s in blks.programs()[::7]]
-    _sweep_accessors(ctx, accp if not q else rng.sample(accp, 120))
-    progs = _programs(ctx, 250 if q else 2500, 20 if q else 200) + corpus.hard_snippets()
-    _sweep_comments(ctx, progs, 8 if q else 12)
-    _sweep_struct(ctx, progs, 8 if q else 12)
+    _timed(ctx, 'accessors', _sweep_accessors, ctx, accp if not q else rng.sample(accp, 80))
+    progs = _programs(ctx, 200 if q else 2500, 16 if q else 200) + corpus.hard_snippets()
+    _timed(ctx, 'comments', _sweep_comments, ctx, progs, 8 if q else 12)
+    _timed(ctx, 'struct', _sweep_struct, ctx, progs, 6 if q else 12)
 
 
 def search(ctx):
@@ -1529,6 +1629,14 @@ def replay(ctx, data):
         r = _doc_one(w['host'], w['s'])
         if r:
             ctx.fail('replay', f'{r[0]}: {r[1]}', w)
+        return
+    if op == 'annsimple':
+        root = _mk(w['src'])
+        st = root.body[0]
+        st.target.replace(st.target.copy() if w['put'] is None else w['put'])
+        ref = ast.parse(root.src).body[0]
+        if st.a.simple != ref.simple:
+            ctx.fail('replay', f'tree simple={st.a.simple}, CPython simple={ref.simple} for {root.src!r}', w)
         return
     if op == 'hdr':
         r, _ = _hdr_one(w['src'], w['path'], w['form'], ast.dump(ast.parse(w['src'])))
